@@ -1,9 +1,324 @@
 package main
 
 // Replay of counterexamples on the real code (go test -overlay, nothing is written into /repo).
+//
+// Supported shape: functions whose parameters and results are scalars, strings or byte slices and whose failed clause
+// mentions only parameters and results (event constructors, note-name functions, FindConfig-free helpers). The model's
+// parameter values are turned into Go literals, the REAL function is executed in an injected in-package test, and the
+// failed clause is re-evaluated by the solver on the concrete inputs and the OBSERVED outputs: the violation counts as
+// replayed iff the clause is false on the real run. Other shapes: the replay file carries the model and the verdict ends
+// with no-failing-input-found.
 
-func tryReplay(rf *ReplayFile, r *SolveResult, eng *Engine) {
-	rf.ReplayNote = "no replay harness for this function shape yet; model recorded"
+import (
+	"encoding/json"
+	"fmt"
+	"go/types"
+	"math"
+	"os"
+	"path/filepath"
+	"regexp"
+	"strconv"
+	"strings"
+	"time"
+
+	"golang.org/x/tools/go/ssa"
+)
+
+var bvHexRe = regexp.MustCompile(`^#x([0-9a-fA-F]+)$`)
+var bvBinRe = regexp.MustCompile(`^#b([01]+)$`)
+var fpRe = regexp.MustCompile(`^\(fp #b([01]) #b([01]+) #[bx]([0-9a-fA-F]+)\)$`)
+
+func parseBV(s string) (uint64, bool) {
+	if m := bvHexRe.FindStringSubmatch(s); m != nil {
+		v, err := strconv.ParseUint(m[1], 16, 64)
+		return v, err == nil
+	}
+	if m := bvBinRe.FindStringSubmatch(s); m != nil {
+		v, err := strconv.ParseUint(m[1], 2, 64)
+		return v, err == nil
+	}
+	return 0, false
 }
 
-func runReplayTest(pkg, src string) (string, bool) { return "", false }
+func parseFP(s string) (float64, bool) {
+	s = strings.TrimSpace(s)
+	switch {
+	case strings.HasPrefix(s, "(_ +zero"):
+		return 0, true
+	case strings.HasPrefix(s, "(_ -zero"):
+		return math.Copysign(0, -1), true
+	case strings.HasPrefix(s, "(_ +oo"):
+		return math.Inf(1), true
+	case strings.HasPrefix(s, "(_ -oo"):
+		return math.Inf(-1), true
+	case strings.HasPrefix(s, "(_ NaN"):
+		return math.NaN(), true
+	}
+	m := fpRe.FindStringSubmatch(s)
+	if m == nil {
+		return 0, false
+	}
+	sign, _ := strconv.ParseUint(m[1], 2, 64)
+	exp, _ := strconv.ParseUint(m[2], 2, 64)
+	var man uint64
+	if strings.Contains(s, "#x"+m[3]) {
+		man, _ = strconv.ParseUint(m[3], 16, 64)
+	} else {
+		man, _ = strconv.ParseUint(m[3], 2, 64)
+	}
+	return math.Float64frombits(sign<<63 | exp<<52 | man), true
+}
+
+func tryReplay(rf *ReplayFile, r *SolveResult, eng *Engine) {
+	rf.ReplayNote = "no replay harness for this function shape; the model is recorded"
+	// locate function and clause
+	var fc *FuncContract
+	var fn *ssa.Function
+	for key, c := range eng.cf.Funcs {
+		if c.Name == r.Obl.Func {
+			fc, fn = c, eng.funcs[key]
+		}
+	}
+	if fc == nil || fn == nil || r.Obl.Kind != "ensures" || fn.Signature.Recv() != nil {
+		return
+	}
+	stem := r.Obl.Name
+	if i := strings.IndexAny(stem, "@/"); i >= 0 {
+		stem = stem[:i]
+	}
+	var clause *Clause
+	for _, c := range fc.Ensures {
+		if c.Name == stem {
+			clause = c
+		}
+	}
+	if clause == nil {
+		return
+	}
+	// parameters from the model
+	type pv struct {
+		name string
+		t    types.Type
+		lit  string // Go literal
+		smt  Term
+	}
+	var params []pv
+	w := newWorld()
+	for _, p := range fn.Params {
+		val, ok := r.Model["param "+p.Name()]
+		if !ok {
+			return
+		}
+		b, isBasic := p.Type().Underlying().(*types.Basic)
+		if !isBasic {
+			return
+		}
+		switch {
+		case b.Info()&types.IsInteger != 0:
+			u, ok := parseBV(val)
+			if !ok {
+				return
+			}
+			wd := intWidth(b)
+			lit := fmt.Sprintf("%d", u)
+			if b.Info()&types.IsUnsigned == 0 {
+				sv := int64(u)
+				if wd < 64 && u>>(uint(wd)-1)&1 == 1 {
+					sv = int64(u) - (1 << uint(wd))
+				}
+				lit = fmt.Sprintf("%d", sv)
+			}
+			params = append(params, pv{p.Name(), p.Type(), typeShort(p.Type()) + "(" + lit + ")", bvInt(wd, int64(u))})
+		case b.Kind() == types.Float64:
+			f, ok := parseFP(val)
+			if !ok {
+				return
+			}
+			params = append(params, pv{p.Name(), p.Type(), fmt.Sprintf("math.Float64frombits(0x%x)", math.Float64bits(f)), f64Term(f)})
+		case b.Kind() == types.Bool:
+			params = append(params, pv{p.Name(), p.Type(), val, Term{val, SBool}})
+		default:
+			return
+		}
+	}
+	// results must be scalars or byte slices
+	rs := fn.Signature.Results()
+	for i := 0; i < rs.Len(); i++ {
+		switch u := rs.At(i).Type().Underlying().(type) {
+		case *types.Basic:
+			if u.Info()&(types.IsInteger|types.IsBoolean) == 0 && u.Kind() != types.Float64 {
+				return
+			}
+		case *types.Slice:
+			if b, ok := u.Elem().Underlying().(*types.Basic); !ok || b.Kind() != types.Uint8 {
+				return
+			}
+		default:
+			return
+		}
+	}
+	var args []string
+	for _, p := range params {
+		args = append(args, p.lit)
+	}
+	var rnames []string
+	for i := 0; i < rs.Len(); i++ {
+		rnames = append(rnames, fmt.Sprintf("r%d", i))
+	}
+	src := fmt.Sprintf(`package %s
+
+import (
+	"encoding/json"
+	"fmt"
+	"math"
+	"testing"
+)
+
+var _ = math.Pi
+
+func TestZZHvReplay(t *testing.T) {
+	obs := map[string]interface{}{}
+	func() {
+		defer func() {
+			if r := recover(); r != nil {
+				obs["panic"] = fmt.Sprint(r)
+			}
+		}()
+		%s := %s(%s)
+		obs["results"] = []interface{}{%s}
+	}()
+	b, _ := json.Marshal(obs)
+	fmt.Println("HV-REPLAY " + string(b))
+}
+`, fn.Pkg.Pkg.Name(), strings.Join(rnames, ", "), fn.Name(), strings.Join(args, ", "), strings.Join(rnames, ", "))
+	rf.ReplayTest = src
+	rf.ReplayPkg = strings.TrimPrefix(fn.Pkg.Pkg.Path(), modPath+"/")
+	out, _ := runReplaySrc(rf.ReplayPkg, src)
+	rf.ReplayOut = truncate(out, 4000)
+	var obs struct {
+		Panic   string        `json:"panic"`
+		Results []interface{} `json:"results"`
+	}
+	found := false
+	for _, ln := range strings.Split(out, "\n") {
+		if strings.HasPrefix(ln, "HV-REPLAY ") {
+			if json.Unmarshal([]byte(ln[len("HV-REPLAY "):]), &obs) == nil {
+				found = true
+			}
+		}
+	}
+	if !found {
+		rf.ReplayNote = "the replay test did not produce output"
+		return
+	}
+	if obs.Panic != "" {
+		rf.Replayed = true
+		rf.ReplayNote = "the real function panics on the model's input: " + obs.Panic
+		return
+	}
+	// re-evaluate the clause on the concrete inputs and observed outputs
+	vc := newVC(w, "replay")
+	curDefs = map[string]string{}
+	x := &Exec{eng: eng, w: w, vc: vc, fn: fn, fc: fc, pkg: fn.Pkg.Pkg,
+		vals: map[ssa.Value]Term{}, tuples: map[ssa.Value][]Term{}, iptr: map[string]Addr{},
+		heapSorts: map[string]Sort{}, nilAxiom: map[string]bool{}, cardAx: map[string]bool{}, trusted: map[string]bool{}, assumedExterns: map[string]bool{}, dropped: map[string]bool{},
+		closures: map[string]*ssa.MakeClosure{}, slInv: map[string]bool{}, allSorts: map[string]Sort{}, boxOf: map[string]boxedVal{}, freshRefs: map[string]bool{}}
+	x.entry = newState()
+	x.params = map[string]SVal{}
+	x.lets = map[string]SVal{}
+	ok := true
+	func() {
+		defer func() {
+			if rec := recover(); rec != nil {
+				ok = false
+				rf.ReplayNote = fmt.Sprintf("clause could not be re-evaluated on the observed values: %v", rec)
+			}
+		}()
+		for _, p := range params {
+			x.params[p.name] = SVal{T: p.smt, Ty: goT(p.t)}
+		}
+		env := x.newEnv(x.entry, x.entry)
+		for _, l := range fc.Lets {
+			v := env.concrete(env.eval(l.E))
+			x.lets[l.Name] = v
+			env.vars[l.Name] = v
+		}
+		var results []Term
+		for i := 0; i < rs.Len(); i++ {
+			rt := rs.At(i).Type()
+			switch u := rt.Underlying().(type) {
+			case *types.Basic:
+				switch {
+				case u.Info()&types.IsBoolean != 0:
+					results = append(results, Term{fmt.Sprint(obs.Results[i]), SBool})
+				case u.Kind() == types.Float64:
+					results = append(results, f64Term(obs.Results[i].(float64)))
+				default:
+					results = append(results, bvInt(intWidth(u), int64(obs.Results[i].(float64))))
+				}
+			case *types.Slice:
+				// []byte is JSON-encoded as base64 by encoding/json; decode via Go
+				bs := decodeB64(fmt.Sprint(obs.Results[i]))
+				ref := vc.fresh("obs_slice", SRef)
+				hn, hs := x.sliceHeap(u.Elem())
+				h := x.heapGet(x.entry, hn, hs)
+				for k, b := range bs {
+					vc.assume(eq(sel(sel(h, ref), bvInt(64, int64(k))), bvInt(8, int64(b))), "observed byte")
+				}
+				results = append(results, mkSlice(ref, bvInt(64, 0), bvInt(64, int64(len(bs))), bvInt(64, int64(len(bs)))))
+			}
+		}
+		bindResults(env, fn, results)
+		goal := x.evalClause(env, clause)
+		vc.oblige(&Obligation{Name: "replay." + clause.Name, Kind: "replay", Goal: goal, PC: tTrue})
+	}()
+	if !ok || len(vc.obls) == 0 {
+		return
+	}
+	dir, _ := os.MkdirTemp("", "hv-replay-")
+	defer os.RemoveAll(dir)
+	holds := true
+	for i, o := range vc.obls {
+		sr := solveOnce(vc, o, dir, i, 30, 0, 1, "", 0)
+		if sr.Status != "discharged" {
+			holds = false
+		}
+	}
+	if !holds {
+		rf.Replayed = true
+		rf.ReplayNote = fmt.Sprintf("replayed: %s(%s) on the real code returns %v, for which the clause is false", fn.Name(), strings.Join(args, ", "), obs.Results)
+	} else {
+		rf.ReplayNote = fmt.Sprintf("not reproduced: %s(%s) on the real code returns %v, which satisfies the clause", fn.Name(), strings.Join(args, ", "), obs.Results)
+	}
+}
+
+func decodeB64(s string) []byte {
+	var out []byte
+	if err := json.Unmarshal([]byte(strconv.Quote(s)), &out); err != nil {
+		return nil
+	}
+	return out
+}
+
+func runReplaySrc(pkg, src string) (string, bool) {
+	dir, err := os.MkdirTemp("", "hv-replaysrc-")
+	if err != nil {
+		return err.Error(), false
+	}
+	defer os.RemoveAll(dir)
+	f := filepath.Join(dir, "zz_hv_replay_test.go")
+	os.WriteFile(f, []byte(src), 0o644)
+	out, err := goTestOverlay(pkg, f, "TestZZHvReplay", "quick", 60*time.Second)
+	return out, err != nil
+}
+
+func runReplayTest(pkg, src string) (string, bool) {
+	out, failed := runReplaySrc(pkg, src)
+	var lines []string
+	for _, ln := range strings.Split(out, "\n") {
+		if strings.HasPrefix(ln, "HV-") || strings.HasPrefix(ln, "--- ") || strings.HasPrefix(ln, "ok") || strings.HasPrefix(ln, "FAIL") {
+			lines = append(lines, ln)
+		}
+	}
+	return strings.Join(lines, "\n"), failed || strings.Contains(out, "HV-VIOLATION")
+}
